@@ -122,12 +122,21 @@ static void FuncSTRLEN(TempResult* pResult, TempResult const* pArgs, unsigned Ar
 /* Parser aufrufen */
 
 static void FuncVAL(TempResult* pResult, TempResult const* pArgs, unsigned ArgCnt) {
-    String Tmp;
+    static int Nest = 0;
+    String     Tmp;
 
     UNUSED(ArgCnt);
 
+    /* a string that contains a VAL() of itself would be evaluated without end: */
+
+    if (Nest >= 64) {
+        WrError(ErrNum_RekMacro);
+        return;
+    }
     as_nonz_dynstr_to_c_str(Tmp, &pArgs[0].Contents.str, sizeof(Tmp));
+    Nest++;
     EvalExpression(Tmp, pResult);
+    Nest--;
 }
 
 static void FuncTOUPPER(TempResult* pResult, TempResult const* pArgs, unsigned ArgCnt) {
